@@ -521,7 +521,10 @@ def evaluate__round(self: XPathFunction, context: ta.ContextType = None) -> ta.O
     except decimal.InvalidOperation:
         if not isinstance(arg, str):
             assert isinstance(arg, (int, float, decimal.Decimal))
-            return round(arg)
+            with decimal.localcontext() as ctx:
+                ctx.prec = len(number.as_tuple().digits) + 1
+                rounding = 'ROUND_HALF_UP' if number > 0 else 'ROUND_HALF_DOWN'
+                return type(arg)(number.quantize(decimal.Decimal('1'), rounding=rounding))
         elif isinstance(context, XPathSchemaContext):
             return []
         raise self.error('XPTY0004') from None
